@@ -1,6 +1,7 @@
 #![allow(dead_code)]
 mod api;
 mod bytes;
+mod cli;
 mod extract;
 mod gen;
 mod hist;
@@ -87,6 +88,7 @@ fn replay_case(property: &str, case: &Value, rep: &mut Report) -> Result<(), Str
         }
         "merge" | "ops" => api::replay(property, case, rep),
         "bytes" => bytes::replay(property, case, rep),
+        "cli" => cli::replay(case, rep),
         other => Err(format!("unknown case kind {:?}", other)),
     }
 }
@@ -305,6 +307,19 @@ fn main() {
                 _ => vec!["whitespace-only text is only rewritten to other whitespace-only text (whether it counts as character data is C03's business)".into()],
             };
             (r, rule, false, assumptions, if property == "C05" { 200 } else { 1000 }, json!({}))
+        } else if property == "C12" {
+            let (r, rule) = cli::run_c12(args.tier == "thorough", args.seed, SHARDS);
+            (
+                r,
+                rule,
+                false,
+                vec![
+                    "the env_logger feature is not built and RUST_LOG is unset; a closed stdout is outside the statement".into(),
+                    "permission-based faults are not used (the sandbox runs as root); uncreatable outputs are a missing directory, a directory, and a path under a regular file".into(),
+                ],
+                300,
+                json!({}),
+            )
         } else if property == "C15" {
             let (r, rule) = api::run_c15(args.tier == "thorough", args.seed, SHARDS);
             (
